@@ -43,6 +43,9 @@ use common::*;
 static ALLOC: CountingAlloc = CountingAlloc;
 
 fn main() {
+    // every panic of the code under test is caught and reported as a violation with its message;
+    // the default hook would print a line (or a backtrace) per panic — millions in an exhaustive sweep
+    std::panic::set_hook(Box::new(|_| {}));
     let args: Vec<String> = std::env::args().collect();
     if args.len() < 2 {
         eprintln!("usage: vh <ID> [--tier quick|thorough] [--replay FILE]");
